@@ -97,7 +97,7 @@ func adjacencyStatements() []string {
 	// binary / comparison operators next to prefixed operands
 	binops := []string{"+", "-", "*", " / ", "%", "&", "|", "^", "<<", ">>", "=", "<", ">", "<=", ">=", "!=", "<>", "<=>", "~", "~*", "!~", "!~*", "||", "&&",
 		" AND ", " OR ", " DIV ", " MOD ", " LIKE ", " NOT LIKE ", " REGEXP ", "!", "! ", " IS NOT ", "->", "::"}
-	lhs := []string{"a", "1", "1.", ".5", "'x'", "t.a", "(a)", "f(a)", "a->b", "a::int"}
+	lhs := []string{"a", "1", "1.", "'x'", "(a)", "a->b"}
 	rhs := []string{"1", "b", "-1", "-b", "- 1", "+1", "+b", "~b", "~ b", "!b", "! b", "- -1", "- -b", "-(1)", "-.5", "-1.", ".5", "1.", "-~b", "~-b", "!~b", "! ~b", "!-b", "-!b", "'x'", "-'x'", "-0x1F", "- - -1", "binary b", "NOT b", "-t.b", "-f(b)", "-b->c", "-b::int", "-b[1]"}
 	for _, l := range lhs {
 		for _, op := range binops {
